@@ -40,13 +40,34 @@ def run(ctx):
     for f in fails[:100]:      # the first failures are enough to decide and to replay
         e = ev[f["i"] - 1]
         ctx.report(classify(e, f["mon"]), {"driver": "h-programs c16 all", "event_index": f["i"], "event": e})
+    # 3. the SDK market model (crates/programs/src/model/market.rs) on the same account bytes: the same writes
+    #    (harness/h-sdk/src/bin/c16s.rs), every model-trait accessor read from gmsol_programs' MarketModel under every
+    #    swap pricing kind, judged by the same monitors (Trace_ConfigKV_sdk = ConfigKVProps + pricing-aware conformance)
+    ctx.build("h-sdk", "c16s")
+    str_ = ctx.path("sdk-writes.ndjson")
+    ctx.run_bin("c16s", ["all", "--out", str_])
+    sfails, _, _ = ctx.validate_trace("Trace_ConfigKV_sdk", str_)
+    sev = vlib.read_ndjson(str_)
+    if not any(e["pricing"] == "shift" for e in sev) or not any(
+            e["closed"] and e["cfg"].get("flag.enable_market_closed_params") == "true" for e in sev):
+        raise vlib.ToolError("vacuity: SDK stage without shift pricing / closed-market switch")
+    ctx.distinct += len({("sdk", e["key"], e["v"], e["closed"], e["pricing"],
+                          e["cfg0"].get("flag.enable_market_closed_params")) for e in sev})
+    ctx.cov["sdk_events"] = len(sev)
+    ctx.cov["samples"].append({k: (v if not isinstance(v, dict) else "{%d entries}" % len(v)) for k, v in sev[200].items()})
+    for f in sfails[:100]:
+        e = sev[f["i"] - 1]
+        c = classify(e, f["mon"])
+        c.update({"target": "sdk", "pricing": e["pricing"], "conforms": f.get("conforms", True)})
+        ctx.report(c, {"driver": "h-sdk c16s all", "event_index": f["i"], "event": e})
     ctx.assumptions += ["values are opaque distinct numbers per key (1000+i, 5000+i, 0 for the 'unset' liquidation factors); "
                         "value-dependent behaviour of a parameter is outside this property",
-                        "the SDK-side tables (gmsol_programs MarketConfig, MarketModel) are compared with the program in C40",
+                        "SDK side: the key is written and read back through the program's getters, the parameters are read from "
+                        "the SDK MarketModel built on the same bytes; under Shift pricing the two swap fee factors read zero by design",
                         "keys without a model-trait accessor (min_tokens_for_first_deposit, most store amounts/factors) are "
                         "checked for read-back and frame only"]
     ctx.cov["trusted_base"] += ["TLC", "harness h-programs c16 driver (projection through the public getters and model traits)",
-                                "syscall stubs (clock, last restart slot)"]
+                                "syscall stubs (clock, last restart slot)", "harness h-sdk c16s driver (SDK MarketModel on the program's bytes)"]
     return ctx.finish("model_checking",
                       "every key of MarketConfigKey, MarketConfigFlag, AmountKey, FactorKey, AddressKey as iterated from the code "
                       "(%d keys), written in every mode (open/closed x switch off/on x pure/impure); distinct = distinct "
